@@ -487,7 +487,7 @@ func runCheck(repo, mode string, args []string) int {
 		for _, m := range engineErrs {
 			fnName := m[:strings.Index(m, ":")]
 			c := e.contracts[fnName]
-			if prop == "C07" || (c != nil && contains(c.Props, prop)) || !strings.Contains(fnName, ".") {
+			if prop == "C07" || (c != nil && c.serves(prop)) || !strings.Contains(fnName, ".") {
 				rel = append(rel, m)
 			}
 		}
@@ -707,6 +707,17 @@ func (e *Engine) report(prop, tier string, obls []*Obl, encs []*FuncEnc, engineE
 	}
 	for _, m := range engineErrs {
 		fmt.Printf("ENGINE-ERROR %s\n", m)
+		if prop != "" {
+			// the contracts of a function serving this property no longer fit its code: every obligation of that function
+			// that was discharged on the unchanged tree is now undischarged. Reported as a violation of the named
+			// (ungeneratable) obligation group, never as a pass.
+			o := &Obl{Name: strings.SplitN(m, ":", 2)[0] + "/generate", Func: strings.SplitN(m, ":", 2)[0], Kind: "generate", Clause: "the obligations of this function can be generated from its contracts and its current code",
+				Status: "undecided", Solver: "bornovc", Output: m}
+			path, _ := e.writeReplay(prop, o, header, dir)
+			fmt.Printf("VIOLATION property=%s replay=%s no-failing-input-found\n", prop, path)
+			fmt.Printf("  failed obligation: %s status=undecided\n  reason: %s\n", o.Name, m)
+			violations++
+		}
 	}
 	fmt.Printf("summary property=%s tier=%s obligations=%d discharged=%d known=%d failed=%d covers=%d engine_errors=%d wall=%.1fs solver=%.1fs\n",
 		prop, tier, len(obls)-covers, discharged, knownN, failed, covers, len(engineErrs), wall.Seconds(), solverTime)
@@ -737,6 +748,9 @@ func (e *Engine) report(prop, tier string, obls []*Obl, encs []*FuncEnc, engineE
 		os.WriteFile(filepath.Join(verifDir, "evidence", prop+".json"), b, 0o644)
 	}
 	if len(engineErrs) > 0 {
+		if prop != "" {
+			return 1
+		}
 		return 3
 	}
 	if failed > 0 {
@@ -847,6 +861,14 @@ func (fe *FuncEnc) caseClause(f *Frame, en *Clause) {
 		ta, ok := ex.Tuple.(*ssa.TypeAssert)
 		if !ok || !ta.CommaOk || !types.Identical(ta.AssertedType, T) {
 			continue
+		}
+		// the type switch of the rule is the one over a parameter; assertions on other values in the body do not count
+		if caseBlock != nil {
+			_, haveParam := subject.(*ssa.Parameter)
+			_, isParam := ta.X.(*ssa.Parameter)
+			if haveParam && !isParam {
+				continue
+			}
 		}
 		caseBlock = b
 		subject = ta.X
